@@ -71,7 +71,110 @@ func pitQueries(c *gen.Ctx, features map[string]string, done []Step, last bool) 
 	return qs
 }
 
+// Workload "meta" (C17): histories biased towards metadata saves / deletes on a few accounts and
+// transactions, under the four *_METADATA_HISTORY combinations; reads of the accounts and
+// transactions at instants before / on / between / after every write.
+
+func genMetaHistory(c *gen.Ctx) []Step {
+	r := c.R
+	n := 8 + r.Intn(8)
+	if c.Wide {
+		n = 10 + r.Intn(20)
+	}
+	targets := []string{"bank", "users:alice", metaOnlyAcct}
+	steps := []Step{}
+	txs := 0
+	for i := 0; i < n; i++ {
+		switch k := r.Intn(10); {
+		case k < 3 || txs == 0:
+			op := Step{Op: "tx", Postings: []jPosting{{Source: "world", Destination: gen.Pick(r, targets[:2]), Amount: genAmount(c), Asset: gen.Pick(r, assets)}},
+				Metadata: gen.Pick(r, metaPool), Force: true}
+			if r.Intn(2) == 0 {
+				ts := gen.Pick(r, timeGrid)
+				op.Timestamp = &ts
+			}
+			if r.Intn(3) == 0 {
+				op.AccountMetadata = map[string]map[string]string{gen.Pick(r, targets): gen.Pick(r, metaPool[:6])}
+			}
+			steps = append(steps, op)
+			txs++
+		case k == 3:
+			steps = append(steps, Step{Op: "revert", ID: uint64(1 + r.Intn(txs)), Force: true, AtEffectiveDate: r.Intn(2) == 0, Metadata: gen.Pick(r, metaPool)})
+			txs++
+		case k < 7:
+			var target map[string]any
+			if r.Intn(2) == 0 {
+				target = map[string]any{"account": gen.Pick(r, targets)}
+			} else {
+				target = map[string]any{"tx": 1 + r.Intn(txs)}
+			}
+			steps = append(steps, Step{Op: "saveMeta", Target: target, Metadata: gen.Pick(r, metaPool[:6])})
+		default:
+			var target map[string]any
+			if r.Intn(2) == 0 {
+				target = map[string]any{"account": gen.Pick(r, targets)}
+			} else {
+				target = map[string]any{"tx": 1 + r.Intn(txs)}
+			}
+			steps = append(steps, Step{Op: "deleteMeta", Target: target, Key: gen.Pick(r, metaKeys[:4])})
+		}
+	}
+	return steps
+}
+
+func metaQueries(c *gen.Ctx, features map[string]string, done []Step, last bool) []Step {
+	r := c.R
+	var qs []Step
+	add := func(q Query) { qs = append(qs, Step{Q: &q}) }
+	k := 4
+	if last {
+		k = 8
+	}
+	ntx := committedTxCount(done)
+	var pits []*int64
+	for _, t := range instants(c, done, k) {
+		pits = append(pits, ptr(t))
+	}
+	pits = append(pits, nil)
+	for _, pit := range pits {
+		for _, a := range []string{"bank", "users:alice", metaOnlyAcct} {
+			add(Query{K: "getAccount", Address: a, PIT: pit})
+		}
+		add(Query{K: "listAccounts", PIT: pit, PageSize: 50})
+		add(Query{K: "listTransactions", PIT: pit, PageSize: 100})
+		if ntx > 0 {
+			add(Query{K: "getTransaction", ID: uint64(1 + r.Intn(ntx)), PIT: pit})
+		}
+		// the metadata filters of the volumes / aggregated listings read the same history
+		add(Query{K: "volumes", PIT: pit, Filter: rawJSON(metadataLeaf(r)), PageSize: 100})
+	}
+	return qs
+}
+
+func pickMetaFeatures(c *gen.Ctx) map[string]string {
+	r := c.R
+	f := map[string]string{
+		"MOVES_HISTORY": "ON", "MOVES_HISTORY_POST_COMMIT_EFFECTIVE_VOLUMES": "SYNC",
+		"ACCOUNT_METADATA_HISTORY": "SYNC", "TRANSACTION_METADATA_HISTORY": "SYNC", "HASH_LOGS": "DISABLED",
+	}
+	switch r.Intn(6) {
+	case 0:
+		f["ACCOUNT_METADATA_HISTORY"] = "DISABLED"
+	case 1:
+		f["TRANSACTION_METADATA_HISTORY"] = "DISABLED"
+	case 2:
+		f["ACCOUNT_METADATA_HISTORY"] = "DISABLED"
+		f["TRANSACTION_METADATA_HISTORY"] = "DISABLED"
+	}
+	return f
+}
+
 func init() {
+	registerWorkload("meta", func(c *gen.Ctx) (In, Out) {
+		features := pickMetaFeatures(c)
+		hist := genMetaHistory(c)
+		return runInterleaved(c, "meta", features, hist, pickCheckpoints(c, len(hist), 2), metaQueries)
+	})
 	registerWorkload("pit", func(c *gen.Ctx) (In, Out) {
 		features := pickFeatures(c)
 		hist := genHistory(c)
